@@ -109,7 +109,8 @@ def check(spec):
     op, twin, names = build_ops(spec)
     summ = {"evals": 0, "keys": [], "probes": {}, "faults": {}, "sim_s": 0.0, "samples": [], "harness": 0, "inconclusive": 0}
     viols = []
-    st, res = C.run_child(op)
+    # the fault-free run is forked: RLIMIT_AS / RLIMIT_CPU need a process boundary
+    st, res = C.run_child(op, fork=True)
     summ["evals"] += 1
     rp = {"op": op, "twin": twin}
     if st in ("cpu", "mem"):
